@@ -55,6 +55,11 @@ inductive GetOut where
   | err                      -- GetPart failed, or the stream ended with an error instead of EOF
   deriving Repr, DecidableEq
 
+/-- the bytes a reader delivers up to its first EOF (`none`: there is no reader) -/
+def GetOut.bytes? : GetOut → Option Bytes
+  | .ok s => some s.bytes
+  | _ => none
+
 structure GetRes (σ : Type) where
   st : σ
   out : GetOut
@@ -102,7 +107,11 @@ structure Fixes where
   tinkStickyEof : Bool := false
   deriving Repr, DecidableEq
 
+/-- the code before any of the repairs -/
 def Fixes.asIs : Fixes := {}
+/-- the code as it is in /repo now: the SQL empty-part repair is in (commit 6ff38ea), the others are
+proposed (fixes/C15-*.patch). The driver does not rely on this constant: the harness probes the tree. -/
+def Fixes.current : Fixes := { sqlEmptyRow := true }
 def Fixes.repaired : Fixes := { sqlEmptyRow := true, ec := EC.Fix.repaired, tinkStickyEof := true }
 
 def sqlChunkSize : Nat := 256 * 1000 * 1000
@@ -299,9 +308,7 @@ def dedup : List PartId → List PartId
     let s1 : Nat → S.σ := fun k => if k < c.n then (S.get tx (s k) i).st else s k
     let pan := rs.any (·.panicked)
     if rs.any (fun r => r.out == .err) then ⟨s1, .err, pan⟩ else
-    let streams := rs.map fun r => match r.out with
-      | .ok st => some st.bytes
-      | _ => none
+    let streams := rs.map fun r => r.out.bytes?
     match EC.read c P.code P.hash F.ec streams with
     | .notFound => ⟨s1, .notFound, pan⟩
     | .result r =>
